@@ -600,8 +600,12 @@ impl RADAU {
                             hhfac = 0.8 * qnewt.powf(exponent);
                             h *= hhfac;
                             steps.rejected += 1;
+                            // The step is repeated with the reduced size (as in RADAU5); it must not be judged, and
+                            // possibly accepted, on the unconverged iterate of the abandoned size
+                            reject = true;
                             last = false;
-                            break 'newton;
+                            call_decomp = true;
+                            continue 'main;
                         }
                     } else {
                         // Unexpected step rejection - continue with reduced step
